@@ -78,6 +78,9 @@ def field_reads(nodes, var):
     return out
 
 
+METHODS_FOR_ELEMENTS: dict = {}
+
+
 def element_vars(nodes_list, var, field):
     """Variables that hold ELEMENTS of `var.field` (through for-loops, comprehensions, list(...) copies, .pop(),
     and parameters of nested functions that receive the list)."""
@@ -97,16 +100,34 @@ def element_vars(nodes_list, var, field):
         return False
 
     funcs = {n.name: n for n in nodes if isinstance(n, ast.FunctionDef)}
+    pulled = set()
     changed = True
     while changed:
         changed = False
-        for n in nodes:
+        for n in list(nodes):
             if isinstance(n, ast.Call) and isinstance(n.func, ast.Name) and n.func.id in funcs:
                 fparams = func_params(funcs[n.func.id])
                 for i, a in enumerate(n.args):
                     if is_list_expr(a) and i < len(fparams) and fparams[i] not in list_aliases:
                         list_aliases.add(fparams[i])
                         changed = True
+            # the list handed to another method of the same class (self.m(node.generators[::-1])): its parameter holds the list there
+            if isinstance(n, ast.Call) and isinstance(n.func, ast.Attribute) and isinstance(n.func.value, ast.Name) and n.func.value.id == "self" \
+                    and n.func.attr in METHODS_FOR_ELEMENTS:
+                m = METHODS_FOR_ELEMENTS[n.func.attr]
+                fparams = func_params(m)[1:]
+                for i, a in enumerate(n.args):
+                    if is_list_expr(a) and i < len(fparams):
+                        if fparams[i] not in list_aliases:
+                            list_aliases.add(fparams[i])
+                            changed = True
+                        if m.name not in pulled:
+                            pulled.add(m.name)
+                            extra = list(ast.walk(m))
+                            nodes.extend(extra)
+                            if isinstance(nodes_list, list):
+                                nodes_list.extend(extra)
+                            changed = True
             if isinstance(n, ast.Assign) and len(n.targets) == 1 and isinstance(n.targets[0], ast.Name):
                 t = n.targets[0].id
                 if is_list_expr(n.value) and t not in list_aliases:
@@ -166,6 +187,8 @@ def run(ctx):
               "expression node of kind K contains; the reference map from ast operator classes to operator.* functions")
     ev_fn = ctx.anchor_func("flow.record.selector.RecordContextMatcher._eval")
     branches, p_node = eval_branches(ev_fn)
+    METHODS_FOR_ELEMENTS.clear()
+    METHODS_FOR_ELEMENTS.update({k: v for k, v in prog.methods_of(prog.cls("flow.record.selector.RecordContextMatcher")).items() if k not in ("_eval", "eval", "matches", "__init__")})
 
     # ------------------------------------------------------------------ R7.1
     ctx.rule("R7.1", "for every handled node kind K, every field in ast.K._fields outside the inert set is read, and every "
